@@ -154,6 +154,16 @@ SITES = {
     'act-stdin-from-program-transformed-by-run': ('act', ['$ act-default'], ["stdin = 'text' -transformed-by run % the-site"]),
     'act-stdin-option-from-program': ('act', ['% act-default', '    -stdin -stdout-from % SITE']),
     'act-source-interpreter': ('act', ['source line'], [], ['actor = source % the-site']),
+    # the variants that ignore the exit code of the program still enforce the timeout (round 6: C19-r6m1 swallowed the
+    # time-out of `run -ignore-exit-code` together with the exit code)
+    'setup-run-as-transformer-ignoring-exit-code': ('setup', ["file out7.txt = 'text' -transformed-by run -ignore-exit-code % SITE"]),
+    'assert-run-as-transformer-ignoring-exit-code': ('assert', ["contents in.txt : -transformed-by run -ignore-exit-code % SITE",
+                                                                "    ! is-empty"]),
+    'setup-file-from-program-ignoring-exit-code': ('setup', ['file out8.txt = -stdout-from -ignore-exit-code $ SITE']),
+    'ba-file-from-program-stderr-ignoring-exit-code': ('before-assert', ['file out9.txt = -stderr-from -ignore-exit-code % SITE']),
+    'setup-env-from-program-ignoring-exit-code': ('setup', ['env V2 = -stdout-from -ignore-exit-code $ SITE']),
+    'act-stdin-from-program-ignoring-exit-code': ('act', ['$ act-default'], ['stdin = -stdout-from -ignore-exit-code % the-site']),
+    'setup-run-ignoring-exit-code': ('setup', ['run -ignore-exit-code % SITE']),
     # a process in [cleanup] that exceeds the timeout AFTER an assertion has failed: the step is still a HARD_ERROR (round 5:
     # C19-r5m2 reported the earlier FAIL only)
     'cleanup-shell-after-failed-assertion': ('cleanup', ['$ SITE'], [], [], ['exit-code == 1']),
